@@ -346,19 +346,31 @@ def run(ctx: Ctx):
 
                         def __getitem__(self, k):
                             from ..microeval import ClassRef as _CR
-                            return _CR(k)
+                            if k.isupper() or k.upper() == k:
+                                return {}          # a module-level table (ALL_TYPES_MAP ...): what is registered from it is
+                            return _CR(k)          # the subject of the dispatch model, not of this fold
                     g[a.asname or a.name] = ModuleRef(a.name, attrs=_Any())
     it = Interp(name=P_CONVERTERS, extra_globals=g)
     for st in cm.tree.body:
         if isinstance(st, ast.FunctionDef):
             from ..microeval import Closure
             it.globals[st.name] = Closure(st, None, it)
+        elif isinstance(st, (ast.Assign, ast.AnnAssign)) and getattr(st, "value", None) is not None:
+            # module-level state of converters.py (a cached default converter ...) takes part in the fold
+            tg = st.targets[0] if isinstance(st, ast.Assign) else st.target
+            if isinstance(tg, ast.Name):
+                try:
+                    it.globals[tg.id] = it.eval(st.value, {})
+                except (AnalysisError, Raised):
+                    pass
 
     def fold(args):
         try:
             return it.call(gc, args)
         except Raised as e:
             return ("raised", e.exc_name)
+    memoised = any(((dotted(d.func) if isinstance(d, ast.Call) else dotted(d)) or "").split(".")[-1] in ("lru_cache", "cache")
+                   for d in gc.decorator_list)
     n0 = len(made)
     r1 = fold([])
     n1 = len(made)
@@ -368,7 +380,7 @@ def run(ctx: Ctx):
     def fresh_from(r, lo, hi):
         return isinstance(r, Record) and r.cls_name == "Converter" and r.fields.get("registered") is True \
             and any(r is m for m in made[lo:hi])
-    fresh = fresh_from(r1, n0, n1) and fresh_from(r2, n1, n2)
+    fresh = fresh_from(r1, n0, n1) and fresh_from(r2, n1, n2) and not memoised
     ctx.check(fresh, "fresh-converter", "get_converter:none-branch",
               "get_converter(None) does not create a fresh cattrs.Converter() per call", P_CONVERTERS, gc.lineno)
     given = conv_record("given")
